@@ -260,7 +260,7 @@ def rule_lifting(ctx):
             want = sorted(["Ok(if_pred_set.union(&else_pred_set).cloned().collect())", "Ok(if_pred_set)"])
             ctx.check(R, "IfThenElse/fall-through-set", tails == want, "returns %s" % tails, site(LF, arm))
             ins = [m for m in method_calls(body, "insert") if render(strip(m["recv"])) == "if_pred_set" and render(strip(m["args"][0])) == "current_index"]
-            okk = len(ins) == 1 and any(fact_str(c).replace(" ", "") == "!(letSome(else_case)=else_case)" for c in (conditions_to(body, ins[0]) or []))
+            okk = len(ins) == 1 and any(fact_str(c).replace(" ", "") == "(letNone=else_case)" for c in (conditions_to(body, ins[0]) or []))
             ctx.check(R, "IfThenElse/no-else-falls-through-from-branching-block", okk, "if_pred_set.insert(current_index) must happen exactly when there is no else branch", site(LF, arm))
             rule_no_removal(ctx, R, "IfThenElse", body)
     # ---------------- Block
